@@ -210,6 +210,15 @@ def write_obligations(tabs, info, path=None):
         thm = 'c01w_%s' % ident
         names.append('IRGen.WrapObl.' + thm)
         lines.append('theorem %s : c01OK IRGen.P_%s IRGen.W_%s = true := by decide +kernel' % (thm, ident, ident))
+    for n in frag.get('wrapC07', []):
+        inf = info.get(n)
+        if not inf or not inf.get('emitted'):
+            missing.append((n, 'no wrapper could be generated: encode: %s; decode: %s' % ((inf or {}).get('encode'), (inf or {}).get('decode'))))
+            continue
+        ident = extract.lean_ident(n)[2:]
+        thm = 'c07w_%s' % ident
+        names.append('IRGen.WrapObl.' + thm)
+        lines.append('theorem %s : c07OK IRGen.P_%s IRGen.W_%s = true := by decide +kernel' % (thm, ident, ident))
     for n in frag.get('wrapC05', []):
         inf = info.get(n)
         if not inf or not inf.get('emitted'):
